@@ -23,6 +23,9 @@ CONFIG = {
         # injectivity completed: equal IDs => equal hashes members (up to canonical form) and equal hashes.sha256; with valid content
         # hashes => equal hashed bytes / equal hashed fields; the same at the level of EventBuilder.Build
         "V.C03.eventID_determines_hashes", "V.C03.eventID_injective_hashed", "V.C03.build_eventID_injective",
+        # proto level: equal IDs => the two Build calls got the same type, sender, room ID, state key, prev / auth lists, redacts, depth,
+        # content (canonical form), clock and origin; contrapositive = the property's sentence
+        "V.C03.build_eventID_injective_proto", "V.C03.build_differ_eventID_ne",
     ],
     "rule": "event.build: EventBuilder.Build itself against its model (VModel.EventBuild.build: struct marshalling with omitempty, "
             "format-1 references incl. the partial base64 decode of eventHashFromEventID, content hash, signEvent with the signature "
@@ -66,7 +69,9 @@ CONFIG = {
         "canonical form, equal hashes.sha256 as gjson reads it), eventID_injective_hashed adds hash_injective (both content hashes valid "
         "=> equal hashed bytes = every field but unsigned / signatures / hashes equal up to member order and -0), build_eventID_injective "
         "states it for two successful EventBuilder.Build calls in one room version of event format 2 (any clocks, origins, key IDs, "
-        "signature bytes). Hypotheses: H injective; number literals of the JSON grammar (numsOk; ProtoOk at Build level, as in "
+        "signature bytes); build_eventID_injective_proto inverts the struct marshalling: equal IDs => equal type, sender, room ID, state "
+        "key (absent / present), prev_events, auth_events, redacts, depth, content up to sorted.normNums, origin_server_ts (the clock) "
+        "and origin; build_differ_eventID_ne is its contrapositive. Hypotheses: H injective; number literals of the JSON grammar (numsOk; ProtoOk at Build level, as in "
         "build_roundtrip); no repeated TOP-LEVEL key (needed: gjson reads the first hashes member, redaction keeps the last one - the "
         "kernel-evaluated pair exDupHashes has equal IDs and different hashes.sha256; the untrusted constructors refuse such events, "
         "Build does not produce them). Nothing is assumed about duplicate keys inside hashes or elsewhere",
